@@ -354,6 +354,18 @@ func checkC01(c WKCase, st *stats.Collector) error {
 			return err
 		}
 	}
+	// two lexers side by side over the same bytes, one Next each in turn (a merge or compare tool): what one
+	// lexer returns must not depend on another lexer being alive, or on lexers this process closed earlier
+	{
+		lp := mc.LexParams{SkipMagic: k.SkipMagic, Custom: custom, AttCRC: true}
+		ra, rb := mc.LexPair(file, file, lp, lp)
+		if err := checkSequential(w, k, &ra, "first of two lexers reading side by side"); err != nil {
+			return err
+		}
+		if err := checkSequential(w, k, &rb, "second of two lexers reading side by side"); err != nil {
+			return err
+		}
+	}
 	msgs := w.Messages()
 	if !k.SkipMagic && !custom {
 		rr := mc.ReadMessagesMode(bytes.NewReader(file), bufMode, false, false, 0, mcap.UsingIndex(false))
@@ -419,7 +431,7 @@ func checkC01(c WKCase, st *stats.Collector) error {
 			break
 		}
 	}
-	st.Case(wl.Hash(c), nontrivial, 5, classes...)
+	st.Case(wl.Hash(c), nontrivial, 7, classes...)
 	if nontrivial && st.WantSample() {
 		st.Sample(WKCase{W: w.Trunc(24), K: k})
 	}
